@@ -151,6 +151,45 @@ fn c05_random_k_verifies() -> bool {
     ECDSA::verify_digest(b"msg", &pk, &sig, SigningHash::Sha256).unwrap_or(false)
 }
 
+fn run_script(hexs: &str) -> Result<Vec<String>, String> {
+    let script = Script::from_hex(hexs).map_err(|e| e.to_string())?;
+    let mut it = Interpreter::from_script(&script);
+    it.run().map_err(|e| e.to_string())?;
+    Ok(it.state().stack.iter().map(|x| hex(x)).collect())
+}
+fn c14_op_return() -> bool {
+    // KNOWN FINDING: OP_RETURN does not end the script: the OP_1 after it is still executed
+    let r = no_panic_val(|| run_script("6a51"));
+    println!("OP_RETURN OP_1 -> {:?} (Bitcoin SV: execution stops at OP_RETURN, the stack stays empty)", r);
+    matches!(r, Some(Ok(ref st)) if st.is_empty())
+}
+fn c14_lshift() -> bool {
+    // KNOWN FINDING: OP_LSHIFT / OP_RSHIFT are numeric, not bitwise on the byte string
+    let r = no_panic_val(|| run_script("01015898"));
+    println!("01 OP_8 OP_LSHIFT -> {:?} (Bitcoin SV: the one-byte operand shifted left by 8 bits is 00)", r);
+    matches!(r, Some(Ok(ref st)) if st.len() == 1 && st[0] == "00")
+}
+fn c14_num2bin_zero() -> bool {
+    let r = no_panic_val(|| run_script("005280"));
+    println!("OP_0 OP_2 OP_NUM2BIN -> {:?}", r);
+    matches!(r, Some(Ok(ref st)) if st.len() == 1 && st[0] == "0000")
+}
+fn c14_sub_order() -> bool {
+    let r = no_panic_val(|| run_script("555394"));
+    println!("OP_5 OP_3 OP_SUB -> {:?}", r);
+    matches!(r, Some(Ok(ref st)) if st.len() == 1 && st[0] == "02")
+}
+fn c14_notif() -> bool {
+    let r = no_panic_val(|| run_script("0064516852")); // OP_0 OP_NOTIF OP_1 OP_ENDIF OP_2
+    println!("OP_0 OP_NOTIF OP_1 OP_ENDIF OP_2 -> {:?}", r);
+    matches!(r, Some(Ok(ref st)) if st.len() == 2 && st[0] == "01" && st[1] == "02")
+}
+fn c16_nip_empty() -> bool { matches!(no_panic_val(|| run_script("77")), Some(Err(_))) }
+fn c16_div_zero() -> bool { matches!(no_panic_val(|| run_script("510096")), Some(Err(_))) }
+fn no_panic_val<T, F: FnOnce() -> T + std::panic::UnwindSafe>(f: F) -> Option<T> {
+    match std::panic::catch_unwind(f) { Ok(v) => Some(v), Err(_) => { println!("PANICKED"); None } }
+}
+
 fn main() {
     let args: Vec<String> = std::env::args().collect();
     let name = args.get(1).map(|s| s.as_str()).unwrap_or("");
@@ -178,6 +217,13 @@ fn main() {
         "c08_xprv_bad_checksum" => c08_xprv_bad_checksum(),
         "c09_ecies_short" => c09_ecies_short(),
         "c05_random_k_verifies" => c05_random_k_verifies(),
+        "c14_op_return" => c14_op_return(),
+        "c14_lshift" => c14_lshift(),
+        "c14_num2bin_zero" => c14_num2bin_zero(),
+        "c14_sub_order" => c14_sub_order(),
+        "c14_notif" => c14_notif(),
+        "c16_nip_empty" => c16_nip_empty(),
+        "c16_div_zero" => c16_div_zero(),
         _ => { eprintln!("unknown probe {}", name); std::process::exit(2) }
     };
     println!("{}: {}", name, if ok { "HOLDS" } else { "FAILS" });
